@@ -6,7 +6,7 @@ use proptest::prelude::*;
 use serde::{Deserialize, Serialize};
 use serde_json::json;
 
-use crate::engine::{CaseResult, Cx, Prop, Tier};
+use crate::engine::{CaseResult, Cx, Failure, Prop, Tier};
 use crate::format;
 use crate::history::{Edit, World, apply_edit, edit_strategy};
 use crate::hooks::V;
@@ -15,6 +15,14 @@ use crate::race::{self, Schedule};
 use crate::scen;
 use crate::tree::{self, CmpOpts, Kind, Meta, Node, Tree};
 use crate::{ensure, fail};
+
+/// One scheduled run: the schedule and the injected storage errors (usually none).
+#[derive(Debug, Clone, PartialEq, Serialize, Deserialize)]
+pub struct Inner {
+    pub sch: Schedule,
+    #[serde(default)]
+    pub faults: Vec<crate::hooks::RaceFault>,
+}
 
 #[derive(Debug, Clone, Serialize, Deserialize)]
 pub struct Case {
@@ -34,6 +42,12 @@ pub struct Case {
     /// b10000: five digits beside four).
     #[serde(default)]
     pub five_digit_ids: bool,
+    /// The delete/gc runs with `break_lock` (which must still refuse while a backup runs).
+    #[serde(default)]
+    pub break_lock: bool,
+    /// A GC_LOCK left behind by a killed collector is in the archive beforehand.
+    #[serde(default)]
+    pub stale_lock: bool,
 }
 
 fn strategy(tier: Tier) -> BoxedStrategy<Case> {
@@ -47,8 +61,9 @@ fn strategy(tier: Tier) -> BoxedStrategy<Case> {
         scen::small_opts(),
         prop::collection::vec(prop::collection::vec((0u8..2, 1u16..15), 2..12), tier.pick(20, 200)),
         prop::bool::weighted(0.25),
+        (prop::bool::weighted(0.35), prop::bool::weighted(0.15)),
     )
-        .prop_map(|(g, opts, revenants, garbage_variant, edits, delete_v0, backup_opts, random, five_digit_ids)| Case {
+        .prop_map(|(g, opts, revenants, garbage_variant, edits, delete_v0, backup_opts, random, five_digit_ids, (break_lock, stale_lock))| Case {
             initial: g.build(opts),
             opts,
             revenants,
@@ -59,6 +74,9 @@ fn strategy(tier: Tier) -> BoxedStrategy<Case> {
             backup_opts: if backup_opts.hunk % 4 != 0 { Opts { hunk: backup_opts.hunk, ..opts } } else { backup_opts },
             random,
             five_digit_ids,
+            break_lock,
+            // a stale lock without break_lock only makes both sides refuse
+            stale_lock: stale_lock && break_lock,
         })
         .boxed()
 }
@@ -156,6 +174,10 @@ fn run(case: &Case, cx: &mut Cx) -> CaseResult {
             *d += shift;
         }
     }
+    if case.stale_lock {
+        std::fs::write(w.arch.join("GC_LOCK"), b"{}\n").unwrap();
+    }
+    let break_lock = case.break_lock;
     let pristine = cx.dir("pristine");
     scen::copy_dir(&w.arch, &pristine);
     let pre = format::scan(&pristine);
@@ -170,10 +192,12 @@ fn run(case: &Case, cx: &mut Cx) -> CaseResult {
     let (g_trace, b_trace) = {
         let ctl = crate::hooks::Ctl::new(&w.arch, crate::hooks::Plan::None);
         let hook: ops::Hook = Some(ctl.clone() as std::sync::Arc<dyn conserve::transport::verif::Interceptor>);
-        let _ = ops::delete_bands(&w.arch, &hook, &delete_ids, false, false);
+        let _ = ops::delete_bands(&w.arch, &hook, &delete_ids, false, break_lock);
         let g = ctl.log();
         crate::engine::force_remove(&w.arch);
         scen::copy_dir(&pristine, &w.arch);
+        // (switch points of the backup are taken from a run that is not refused at once)
+        let _ = std::fs::remove_file(w.arch.join("GC_LOCK"));
         let ctl = crate::hooks::Ctl::new(&w.arch, crate::hooks::Plan::None);
         let hook: ops::Hook = Some(ctl.clone() as std::sync::Arc<dyn conserve::transport::verif::Interceptor>);
         let _ = ops::backup(&w.arch, &hook, &w.src, case.backup_opts, &[]);
@@ -202,16 +226,59 @@ fn run(case: &Case, cx: &mut Cx) -> CaseResult {
     let crit = [scen::thin(&g_crit, cx.tier.pick(6, 10)), scen::thin(&b_crit, cx.tier.pick(6, 10))];
     let mut schedules = race::enumerate_keyed(&all, &crit);
     schedules.extend(case.random.iter().map(|r| Schedule(r.clone())));
-    let only: Option<Schedule> = cx.only_inner.as_ref().and_then(|v| serde_json::from_value(v.clone()).ok());
+    let mut runs: Vec<Inner> = schedules.into_iter().map(|sch| Inner { sch, faults: vec![] }).collect();
+    // One transient storage error in the collector while the backup is under way (the
+    // collector starts after the backup has performed p operations and then runs through),
+    // and one in the backup's own look at the lock / the version list while the collector
+    // is under way.
+    {
+        use crate::hooks::{Kind as EK, RaceFault};
+        let late_reads: Vec<u16> = g_trace
+            .iter()
+            .enumerate()
+            .filter(|(i, l)| *i >= 8 && !l.key.verb.mutating())
+            .map(|(i, _)| i as u16)
+            .collect();
+        let mut g_ordinals: Vec<u16> = (0..g_trace.len().min(8) as u16).collect();
+        g_ordinals.extend(scen::thin(&late_reads, cx.tier.pick(4, 12)));
+        let b_starts = scen::thin(&crit[1], cx.tier.pick(5, 10));
+        for nth in g_ordinals {
+            for kind in [EK::Other, EK::PermissionDenied] {
+                for p in &b_starts {
+                    runs.push(Inner {
+                        sch: Schedule(vec![(1, *p), (0, u16::MAX)]),
+                        faults: vec![RaceFault { actor: 0, verb: None, prefix: String::new(), nth, kind }],
+                    });
+                }
+            }
+        }
+        let g_starts = scen::thin(&crit[0], cx.tier.pick(5, 10));
+        for (verb, prefix, nth) in [(V::Metadata, "GC_LOCK", 0u16), (V::Metadata, "GC_LOCK", 1), (V::ListDir, "", 0), (V::ListDir, "", 1)] {
+            for kind in [EK::Other, EK::PermissionDenied] {
+                for p in &g_starts {
+                    runs.push(Inner {
+                        sch: Schedule(vec![(0, *p), (1, u16::MAX)]),
+                        faults: vec![RaceFault { actor: 1, verb: Some(verb), prefix: prefix.to_string(), nth, kind }],
+                    });
+                }
+            }
+        }
+    }
+    let only: Option<Inner> = cx.only_inner.as_ref().and_then(|v| {
+        serde_json::from_value::<Inner>(v.clone())
+            .ok()
+            .or_else(|| serde_json::from_value::<Schedule>(v.clone()).ok().map(|sch| Inner { sch, faults: vec![] }))
+    });
     let mut evals = 0u64;
     let mut nontrivial = 0u64;
     let mut n = 0u32;
-    for sch in schedules {
+    for inner in runs {
         if let Some(o) = &only {
-            if *o != sch {
+            if *o != inner {
                 continue;
             }
         }
+        let sch = &inner.sch;
         crate::engine::heartbeat();
         crate::engine::force_remove(&w.arch);
         scen::copy_dir(&pristine, &w.arch);
@@ -219,13 +286,14 @@ fn run(case: &Case, cx: &mut Cx) -> CaseResult {
         let src = w.src.clone();
         let ids = delete_ids.clone();
         let bo = case.backup_opts;
-        let out = race::run(
+        let out = race::run_with_faults(
             &w.arch,
             vec![
-                Box::new(move |hook| ops::delete_bands(&a1, &hook, &ids, false, false).map(|_| ())),
+                Box::new(move |hook| ops::delete_bands(&a1, &hook, &ids, false, break_lock).map(|_| ())),
                 Box::new(move |hook| ops::backup(&a2, &hook, &src, bo, &[]).map(|_| ())),
             ],
-            &sch,
+            sch,
+            inner.faults.clone(),
         );
         evals += 1;
         // non-trivial: each actor runs at least one operation between the other's lock check
@@ -242,7 +310,8 @@ fn run(case: &Case, cx: &mut Cx) -> CaseResult {
             }
             _ => false,
         };
-        if overlap && hazard {
+        let fault_hit = out.trace.iter().any(|(_, l)| l.injected.is_some());
+        if overlap && hazard || (fault_hit && hazard) {
             nontrivial += 1;
         }
         let res: CaseResult = (|| {
@@ -289,7 +358,8 @@ fn run(case: &Case, cx: &mut Cx) -> CaseResult {
             Ok(())
         })();
         if let Err(f) = res {
-            cx.inner_failure(f.with_inner(json!(sch)))?;
+            let f = if inner.faults.is_empty() { f } else { Failure::new(format!("{}/with-storage-error", f.signature), f.message.clone()) };
+            cx.inner_failure(f.with_inner(json!(inner)))?;
         }
     }
     cx.add_evals(evals);
